@@ -27,7 +27,13 @@ func (e *Engine) newEnv(st *State, pos token.Pos) *SpecEnv {
 	if e.curCon != nil {
 		pkg = keyPkg(e.curCon.Key)
 	}
-	return &SpecEnv{E: e, St: st, Old: e.entry, Bound: map[string]Val{}, Pos: pos, Pkg: pkg}
+	env := &SpecEnv{E: e, St: st, Old: e.entry, Bound: map[string]Val{}, Pos: pos, Pkg: pkg}
+	if e.curCon != nil {
+		for k, v := range e.ExtraBound[e.curCon.Key] {
+			env.Bound[k] = v
+		}
+	}
+	return env
 }
 
 func (env *SpecEnv) with(st *State) *SpecEnv {
@@ -78,6 +84,9 @@ func (env *SpecEnv) lookup(name string) (Val, bool, error) {
 	}
 	return Val{}, false, nil
 }
+
+// EvalSpec evaluates a contract expression (for client spec functions).
+func (e *Engine) EvalSpec(env *SpecEnv, x spec.Expr) (Val, error) { return e.evalSpec(env, x) }
 
 func (e *Engine) evalSpec(env *SpecEnv, x spec.Expr) (Val, error) {
 	switch x := x.(type) {
